@@ -54,141 +54,44 @@ def _only_sorts(prog, name):
 def check_config(rep, prog):
     cfg = prog.config
     rn = prog.body(RENDER)
-    sl = T.Slicer(rn)
+    from . import symalg as S, absint as A, render_sem as RSEM
 
-    def one_call(pred, what):
-        cs = [(bi, t) for bi, t in rn.calls(pred)]
-        rep.floor("C01.%s.%s" % (what, cfg), len(cs), 1, what)
-        return cs
-    clip = one_call(lambda c: facts.callee_matches(c, "view_frustum::clip"), "view_frustum::clip call")
-    fill = one_call(lambda c: facts.callee_matches(c, "raster::tri_fill"), "tri_fill call")
-    # ---- S1
-    cb, ct = clip[0]
-    tris_t = s(sl.operand(ct["args"][0]))
-    # tris = collect(map(iter(tris_param), closure#1)) where closure#1 indexes the shaded verts
-    shaded = None
-    ok_tris = False
-    col = [x for x in T.walk(tris_t) if x[0] == "call" and x[1].split(" => ")[0].endswith("Iterator::collect")]
-    if col:
-        m = col[0][2][0]
-        if m[0] == "call" and m[1].split(" => ")[0].endswith("Iterator::map"):
-            src, clos = m[2][0], m[2][1]
-            from_param = T.contains(src, lambda q: q == ("param", 1))
-            if clos[0] == "agg" and clos[1].startswith("closure:") and clos[2]:
-                shaded = s(clos[2][0])
-                ok_tris = from_param
-    # shaded verts = collect(map(map(cloned(iter(verts_param)), vertex-shader closure), ClipVert::new))
-    ok_verts = False
-    if shaded is not None:
-        sv = shaded
-        has_new = T.contains(sv, lambda q: q[0] == "fnptr" and "ClipVert::<V>::new" in q[1])
-        vs_cl = [q for q in T.walk(sv) if q[0] == "agg" and q[1].startswith("closure:")]
-        vs_ok = False
-        for q in vs_cl:
-            cbody = prog.bodies.get(q[1][8:])
-            if cbody and any(True for _b, _t in cbody.calls(lambda c: facts.callee_matches(c, "VertexShader::shade_vertex"))):
-                vs_ok = True
-        from_verts = T.contains(sv, lambda q: q == ("param", 2))
-        # order: map(shade) is INSIDE map(ClipVert::new)
-        order = False
-        for q in T.walk(sv):
-            if q[0] == "call" and q[1].split(" => ")[0].endswith("Iterator::map") and q[2][1][0] == "fnptr" and "ClipVert::<V>::new" in q[2][1][1]:
-                order = T.contains(q[2][0], lambda r: r[0] == "agg" and r[1].startswith("closure:"))
-        ok_verts = has_new and vs_ok and from_verts and order
-    rep.inst("C01.S1", "clip input = triangles assembled (by index) from collect(verts.map(shade_vertex).map(ClipVert::new)): tris=%s verts=%s" % (ok_tris, ok_verts), config=cfg)
-    if not (ok_tris and ok_verts):
-        rep.violate("C01.S1", "S1|assembly", rn.where(cb, None), "view_frustum::clip is not fed the triangles assembled from the vertex shader's output wrapped by ClipVert::new", config=cfg)
-    clip_out = s(sl.operand(ct["args"][1]))
-    fb, ft = fill[0]
-    dom = rn.dominates(cb, fb)
-    # the loop feeding tri_fill iterates the clip output
-    arg = s(sl.operand(ft["args"][0]))
-    from_clip = T.contains(arg, lambda q: q[0] == "call" and "into_iter" in q[1] and s(q[2][0]) == clip_out)
-    rep.inst("C01.S1", "clip dominates tri_fill: %s; tri_fill's triangle derives from iterating the clip output: %s" % (dom, from_clip), config=cfg)
-    if not (dom and from_clip):
-        rep.violate("C01.S1", "S1|order", rn.where(fb, None), "a triangle can reach tri_fill without having passed view_frustum::clip (dominates=%s, from clip output=%s)" % (dom, from_clip), config=cfg)
-    # nothing else consumes / produces the clip output between clip and the loop except depth_sort
-    for bi, t in rn.calls():
-        for a in t["args"]:
-            at = s(sl.operand(a))
-            if at == clip_out and bi not in (cb,):
-                name = t["callee"]["path"]
-                if not any(k in name for k in ("render::depth_sort", "into_iter", "DerefMut::deref_mut", "Deref::deref")) and not _only_sorts(prog, name):
-                    rep.violate("C01.S1", "S1|clip-output-touched|%s" % name, rn.where(bi, None),
-                                "the clip output is passed to %s between clipping and rasterisation" % name, config=cfg)
+    # ---- S1 (structural half): no path reaches tri_fill without having passed the clipper. In render() with its private helpers
+    # inlined, every tri_fill call is dominated by a call of the frustum clipper (the `view_frustum::clip` wrapper or `Clip::clip`
+    # itself). This sees a by-pass under a size / count threshold that the reference scene below does not trip.
+    rin = prog.inlined(rn, depth=3, pred=lambda cb: (not cb.is_pub) and cb.file == rn.file)
+    live = set(rin.reachable(0))
+    is_clip = lambda c: facts.callee_matches(c, "view_frustum::clip", "render::clip::Clip::clip", "as render::clip::Clip>::clip")  # noqa: E731
+    clips = [bi for bi, _t in rin.calls(is_clip) if bi in live]
+    fills = [bi for bi, _t in rin.calls(lambda c: facts.callee_matches(c, "raster::tri_fill")) if bi in live]
+    rep.floor("C01.view_frustum::clip call.%s" % cfg, len(clips), 1, "calls of the frustum clipper in render()")
+    rep.floor("C01.tri_fill call.%s" % cfg, len(fills), 1, "tri_fill call")
+    for fb_ in fills:
+        # every path from the entry to this tri_fill passes one of the clip calls
+        by_pass = fb_ in rin.reachable(0, removed_blocks=set(clips), unwind=False)
+        rep.inst("C01.S1", "tri_fill at %s is reachable only through a call of the frustum clipper: %s" % (rin.where(fb_, None), not by_pass), config=cfg)
+        if by_pass:
+            rep.violate("C01.S1", "S1|order", rin.where(fb_, None), "a triangle can reach tri_fill on a path that does not pass the frustum clipper", config=cfg)
 
-    # ---- S2 / S3 / S6: WHAT the per-vertex stage computes, by symbolic interpretation of whatever callable is mapped over the
-    # clipped triangle's vertices on the way to tri_fill (a closure, a closure calling a helper, a function pointer): on a symbolic
-    # clip vertex (x, y, z, w; attribute a) and a symbolic 4x4 viewport matrix M it must return
-    #   position = M . (x/w, y/w, 1/w, 1)  (rows 0..2)      attribute = a / w
-    # as identities of rational functions. The shape of the code is irrelevant.
-    from . import symalg as S, absint as A
-    map_calls = [q for q in T.walk(arg) if q[0] == "call" and q[1].split(" => ")[0].endswith("array::<impl [T; N]>::map")]
-    ok6 = bool(map_calls) and arg == map_calls[0]
-    rep.inst("C01.S6", "tri_fill receives vs.map(<per-vertex stage>) of the clipped triangle: %s" % ok6, config=cfg)
-    if not ok6:
-        rep.violate("C01.S6", "S6|fill-input", rn.where(fb, None), "tri_fill is not given the per-vertex stage's output for the clipped triangle's vertices", config=cfg)
-    else:
-        F = s(map_calls[0][2][1])
-        M = S.matrix("m", 4)
-        mcell = A.Frame(None)
-        mcell.locals[0] = M
-        mref = ("ref", mcell, 0, [])
-        fval = None
-        if F[0] == "agg" and F[1].startswith("closure:"):
-            ups = []
-            cbody = prog.bodies.get(F[1][8:])
-            byref = {i_: br for i_, (_n, br) in (T.Slicer(cbody).upvars().items() if cbody is not None else [])}
-            for ci_, cap in enumerate(F[2]):
-                ct_ = s(cap)
-                if T.contains(ct_, lambda q: q == ("param", 5)) or ct_ == ("param", 5):
-                    ups.append(mref if byref.get(ci_, True) else M)
-                else:
-                    ups.append(A.UNKNOWN)
-            fval = ("closure", F[1][8:], ups, {})
-        elif F[0] == "fnptr":
-            fval = ("fn", F[1].split(" => ")[-1], None)
-        if fval is None:
-            raise common.Infra("C01.S2: the per-vertex stage mapped over the clipped vertices is neither a closure nor a function (%s)" % T.show(F)[:80])
-        CV = "retrofire_core::render::clip::ClipVert"
-        VEC = "retrofire_core::math::vec::Vector"
-        cva = prog.adt(CV)
-        names = cva["variants"][0]["fields"]
-        vals = {"pos": ("adt", VEC, "Vector", [("array", [S.sym(c) for c in "xyzw"]), ("tuple", [])]), "outcode": A.UNKNOWN, "attrib": S.sym("a")}
-        cv = ("adt", CV, cva["variants"][0]["name"], [vals.get(n, A.UNKNOWN) for n in names])
-        it = S.interp(prog, models={"f32>::recip": S.m_recip})
+    # ---- S1 (behavioural half) / S2 / S3 / S6 by interpreting render() on the reference scene of sa/render_sem.py with a SYMBOLIC viewport
+    # matrix: every vertex shaded once in order; a visible triangle reaches tri_fill with position = to_screen . (x/w, y/w, 1/w, 1) as a
+    # function of the matrix entries and attribute = a / w of the same w; a hidden triangle never does; a partly visible one only inside
+    # the viewport. The shape of render() (closures, helpers, iterator chains) is irrelevant.
+    def pipeline_block():
         try:
-            out = A.deref_all(it, it.invoke(fval, [cv], 0))
-            if not (isinstance(out, tuple) and out[0] == "adt" and out[1].endswith("geom::Vertex")):
-                raise A.Undecided("the stage returns %r" % (out,))
-            vnames = prog.adt(out[1])["variants"][0]["fields"]
-            pos = [S.to_ratio(c) for c in S.components(it, out[3][vnames.index("pos")])]
-            att = S.to_ratio(A.deref_all(it, out[3][vnames.index("attrib")]))
-        except (A.Undecided, A.Panic, S.NotPolynomial, KeyError, ValueError) as e:
-            raise common.Infra("C01.S2: the per-vertex stage could not be interpreted symbolically (%s)" % e)
-        from fractions import Fraction
-        one = {(): Fraction(1)}
-        W = {("w",): Fraction(1)}
-        ok_att = S.ratio_eq(att, ({("a",): Fraction(1)}, W))
-        ok_pos = len(pos) == 3
-        for r_ in range(3):
-            if not ok_pos:
-                break
-            num = {}
-            for c_, sy in enumerate(("x", "y", None, None)):
-                pass
-            # M[r] . (x/w, y/w, 1/w, 1) = (m_r0 x + m_r1 y + m_r2 + m_r3 w) / w
-            num = {("m%d0" % r_, "x"): Fraction(1), ("m%d1" % r_, "y"): Fraction(1), ("m%d2" % r_,): Fraction(1), ("m%d3" % r_, "w"): Fraction(1)}
-            num = {tuple(sorted(k_)): v_ for k_, v_ in num.items()}
-            ok_pos = ok_pos and S.ratio_eq(pos[r_], (num, W))
-        rep.inst("C01.S2", "per-vertex stage on a symbolic clip vertex: attribute = a / w: %s" % ok_att, config=cfg)
-        rep.inst("C01.S3", "per-vertex stage on a symbolic clip vertex: position = to_screen . (x/w, y/w, 1/w, 1): %s" % ok_pos, config=cfg)
-        if not ok_att:
-            rep.violate("C01.S2", "S2|paired-division", rn.where(fb, None),
-                        "the per-vertex stage does not divide the attribute by the w of the same clip-space position (attribute = %s / %s)" % (att[0], att[1]), config=cfg)
-        if not ok_pos:
-            rep.violate("C01.S3", "S3|viewport", rn.where(fb, None),
-                        "the per-vertex stage does not produce to_screen.apply((x/w, y/w, 1/w)) with render()'s own viewport matrix (got %s)" % ([(str(p_[0])[:80], str(p_[1])[:40]) for p_ in pos][:1],), config=cfg)
+            n, findings = RSEM.check(prog)
+        except A.Undecided as e:
+            raise common.Infra("C01.S1: render() could not be interpreted on the reference scene (%s)" % e)
+        mine = [f for f in findings if f[0] == "pipeline"]
+        rule_of = {"vertex-stage": "S1", "assembly": "S1", "clip-bypassed": "S1", "dropped": "S1", "panic": "S1", "position": "S3", "viewport": "S3", "paired-division": "S2"}
+        for rule, txt in (("S1", "every vertex shaded once; visible triangles assembled by index reach tri_fill, hidden ones never, clipped ones inside the viewport"),
+                          ("S2", "attribute = a / w with the w of the same vertex's position"),
+                          ("S3", "position = to_screen . (x/w, y/w, 1/w, 1) as a function of the symbolic viewport matrix")):
+            rep.inst("C01." + rule, "render() on the reference scene (%d settings): %s: %s" % (n, txt, not any(rule_of.get(f[1]) == rule for f in mine)), config=cfg)
+        for _c, key, msg in mine:
+            rule = rule_of.get(key, "S1")
+            rep.violate("C01." + rule, "%s|%s" % (rule, key), rn.where(), msg, config=cfg)
+    rep.guard(pipeline_block)
 
     # ---- S4: what Scanline::fragments yields, by symbolic interpretation: Frag{pos, var / pos.z} for every item of self.vs
     fr = prog.body("retrofire_core::render::raster::Scanline::<V>::fragments")
